@@ -142,7 +142,7 @@ fn check_min(r1: &Recipe, r2: &Recipe, ctx: &mut Ctx) -> Result<(), Failure> {
 }
 
 fn equal_pair() -> BoxedStrategy<(Recipe, Recipe)> {
-    (recipe::recipe_small(), recipe::recipe_small(), 0u8..8)
+    (recipe::recipe_small(), recipe::recipe_small(), 0u8..12)
         .prop_map(|(p, q, w)| {
             use Recipe::*;
             let b = |r: &Recipe| Box::new(r.clone());
@@ -154,6 +154,11 @@ fn equal_pair() -> BoxedStrategy<(Recipe, Recipe)> {
                 4 => (Sub(b(&p), b(&p)), Torsion(Box::new(Identity))),
                 5 => (AffineRoundTrip(Box::new(Torsion(b(&p)))), Double(Box::new(Mul(crate::gen::Num((&crate::refmodel::R.m + 1u32) >> 1), b(&p))))),
                 6 => (ReDecode(b(&p)), Torsion(b(&p))),
+                // both sides normalised to Z = 1, different coset representatives
+                8 => (AffineRoundTrip(Box::new(Torsion(b(&p)))), AffineRoundTrip(b(&p))),
+                9 => (AffineRoundTrip(Box::new(MinusOneTimes(b(&q)))), AffineRoundTrip(Box::new(Neg(b(&q))))),
+                10 => (ReDecode(b(&p)), AffineRoundTrip(Box::new(Torsion(b(&p))))),
+                11 => (Neg(b(&p)), ReDecode(Box::new(Neg(b(&p))))),
                 _ => (Add(b(&p), b(&q)), Add(b(&q), Box::new(Torsion(b(&p))))),
             }
         })
